@@ -2,7 +2,10 @@
 // primitives share no memory with callers).  It executes the mutation schedules written out by TLC
 // (spec/plan/Plan_Ownership.tla) on real Tink objects, one scenario per (target, buffer layout,
 // schedule).  Every byte slice passed to the library lives inside a larger sentinel-filled array at
-// a non-zero offset with spare capacity; every returned slice is registered with its full capacity.
+// a non-zero offset with spare capacity - five layouts: capped 8 bytes behind len, un-capped small,
+// un-capped with 8 KiB of room (an append of any size lands in the caller's memory instead of
+// reallocating), and all inputs of a call adjacent in one frame in call order / reverse order;
+// every returned slice is registered with its full capacity.
 // After every step the driver logs the content of every region and the observable value of the
 // library object; spec/trace/Trace_Ownership.tla judges the log.  The driver itself judges nothing.
 package main
@@ -37,6 +40,8 @@ type Target struct {
 	Obs func(o any) map[string]string
 }
 
+const nLayouts = 5
+
 var targets []*Target
 
 func register(t ...*Target) { targets = append(targets, t...) }
@@ -64,13 +69,14 @@ type Scenario struct {
 
 // Call is one library call in progress.
 type Call struct {
-	sc   *Scenario
-	kind string
-	site string
-	ops  []string
-	idx  []int // regions created by this call
-	pre  []Val
-	err  error
+	sc    *Scenario
+	kind  string
+	site  string
+	ops   []string
+	idx   []int // regions created by this call
+	pre   []Val
+	err   error
+	frame *Frame // layouts 3, 4: the frame the inputs of this call are cut from
 }
 
 // Site names the call for violation signatures: <package>.<Func>.  A call chain (e.g. NewPublicKey then
@@ -89,6 +95,15 @@ func (c *Call) add(r Region, role, arg string) {
 
 // In places content into a fresh caller buffer and returns the slice to hand to the library.
 func (c *Call) In(arg string, content []byte) []byte {
+	if c.sc.layout >= 3 {
+		if c.frame == nil {
+			c.frame = newFrame(c.sc.layout == 4)
+			c.add(FrameRest{c.frame}, "in", "frame")
+		}
+		a := c.frame.carve(content)
+		c.add(a, "in", arg)
+		return a.Slice()
+	}
 	b := newBuf(content, c.sc.layout)
 	c.add(b, "in", arg)
 	return b.Slice()
@@ -182,6 +197,9 @@ func (sc *Scenario) call(kind string, f func(c *Call)) {
 			r.site = c.site
 		}
 		v := c.pre[k] // inputs: what the caller put in before the call; results: as returned
+		if x, ok := r.reg.(interface{ ExpectedPre() Val }); ok {
+			v = x.ExpectedPre()
+		}
 		news = append(news, newReg{r.role, r.arg, v})
 	}
 	alias := [][2]int{}
@@ -445,18 +463,25 @@ func main() {
 		if len(ss) == 0 {
 			vt.Fatal("no schedules for shape %s (target %s)", key, t.Name)
 		}
-		for layout := 0; layout < 2; layout++ {
-			pick := make([]int, len(ss))
-			for i := range pick {
-				pick[i] = i
+		// Every schedule runs in one of the five buffer layouts, rotating (the layouts differ only in what a
+		// call can reach behind an input; what a scribble reveals does not depend on them); a target with fewer
+		// than five schedules runs each of them in all five.  Expensive targets run a seeded sample.
+		pick := make([]int, len(ss))
+		for i := range pick {
+			pick[i] = i
+		}
+		if m := 2 * maxes[t.Cost]; m > 0 && len(ss) > m {
+			r := vt.Rng(int64(ti))
+			r.Shuffle(len(pick), func(i, j int) { pick[i], pick[j] = pick[j], pick[i] })
+			pick = pick[:m]
+			sort.Ints(pick)
+		}
+		for k, si := range pick {
+			layouts := []int{(k + ti + int(vt.Seed())) % nLayouts}
+			if len(pick) < nLayouts {
+				layouts = []int{0, 1, 2, 3, 4}
 			}
-			if m := maxes[t.Cost]; m > 0 && len(ss) > m {
-				r := vt.Rng(int64(ti*2 + layout))
-				r.Shuffle(len(pick), func(i, j int) { pick[i], pick[j] = pick[j], pick[i] })
-				pick = pick[:m]
-				sort.Ints(pick)
-			}
-			for _, si := range pick {
+			for _, layout := range layouts {
 				sp := scenarioSpec{Target: t.Name, Layout: layout, Steps: ss[si], Seed: vt.Seed()*1000003 + int64(ti)*100000 + int64(nsc), Rot: si + layout}
 				runScenario(w, t, sp, hit)
 				nsc++
